@@ -325,20 +325,49 @@ func runE2ECase(t fataler, c e2eCase) {
 		})
 	}
 	sentinels := 0
-	// quiesce: the active goes quiet, the sentinel is the last change pushed; once the standby
-	// shows it every earlier change of the (ordered) stream has been applied.
+	// quiesce: the active goes quiet, the sentinel is the last change pushed; once the standby shows it
+	// every earlier change of the (ordered) stream has been applied — provided the sentinel reached the
+	// standby THROUGH THE STREAM (one ordered channel, one reader).  A sentinel that arrived inside the
+	// snapshot of a reconnect proves nothing about changes still queued on the stream attached around
+	// that snapshot: they are applied after it, in push order, and while that happens the table is
+	// transiently older than the active's.  So a sentinel counts only if no full sync completed between
+	// its push (with the stream attached) and its arrival; otherwise another one is pushed (bounded).
 	quiesce := func() bool {
-		sentinels++
-		sid := act.sentinel(sentinels)
-		hist = append(hist, "sentinel")
-		if !pollUntil(func() bool { return held(sid) }) {
-			inconclusive("sentinel %s not seen on the standby within %v", sid, waitTimeout)
-			return false
+		for attempt := 0; attempt < 6; attempt++ {
+			var before ha.SyncStats
+			if !pollUntil(func() bool { before = sb.Stats(); return before.Connected }) {
+				inconclusive("standby not attached within %v before the sentinel could be pushed", waitTimeout)
+				return false
+			}
+			sentinels++
+			sid := act.sentinel(sentinels)
+			hist = append(hist, "sentinel")
+			if !pollUntil(func() bool { return held(sid) }) {
+				inconclusive("sentinel %s not seen on the standby within %v", sid, waitTimeout)
+				return false
+			}
+			// the sentinel may have arrived through the snapshot of a reconnect that is still in progress
+			// (an active that disconnects slow clients bounces the link on its own): the phase ends with the stream attached
+			var after ha.SyncStats
+			if !pollUntil(func() bool { after = sb.Stats(); return after.Connected }) {
+				inconclusive("standby not attached within %v after the sentinel arrived", waitTimeout)
+				return false
+			}
+			if after.LastSyncTime.Equal(before.LastSyncTime) {
+				return true // no full sync since before the push: the sentinel came through the stream
+			}
+			cls["sentinel-arrived-in-snapshot"] = true
 		}
-		// the sentinel may have arrived through the snapshot of a reconnect that is still in progress
-		// (an active that disconnects slow clients bounces the link on its own): the phase ends with the stream attached
-		if !pollUntil(func() bool { return sb.Stats().Connected }) {
-			inconclusive("standby not attached within %v after the sentinel arrived", waitTimeout)
+		inconclusive("the link kept bouncing: no sentinel arrived through the stream in 6 attempts")
+		return false
+	}
+	// activeDrained: "the active is quiet" must also hold for its broadcast queue before the standby is let
+	// back in.  A change still queued when the standby's new stream attaches is delivered after the snapshot
+	// (which already contains it) and makes the table transiently older than the snapshot; the phases that
+	// compare immediately after the reconnect are not about that (the race phase is, and compares at quiescence).
+	activeDrained := func() bool {
+		if !pollUntil(func() bool { return act.syn.VerifSSEBacklog() == 0 }) {
+			inconclusive("active backlog did not drain within %v", waitTimeout)
 			return false
 		}
 		return true
@@ -406,6 +435,9 @@ func runE2ECase(t fataler, c e2eCase) {
 			mark := time.Now() // before the cut: no full sync happens spontaneously while the stream is up
 			fw.cut(true)
 			do("link-down", ph.Changes, true)
+			if !activeDrained() {
+				break
+			}
 			hist = append(hist, "restore")
 			fw.restore()
 			if !linkUp(mark) {
@@ -427,6 +459,9 @@ func runE2ECase(t fataler, c e2eCase) {
 			hist = append(hist, "standby-stop")
 			sb.Stop()
 			do("standby-stopped", ph.Changes, false) // the restarted standby holds nothing: no steering, not an NT class
+			if !activeDrained() {
+				break
+			}
 			sbStore = ha.NewInMemorySessionStore()
 			mark := time.Now()
 			hist = append(hist, "standby-start")
